@@ -98,10 +98,27 @@ Definition offenders (rs : list fsum) : list string :=
 Definition guarded (rs : list fsum) : list fsum :=
   filter (fun r => negb (mem (f_name r) known_offenders)) rs.
 
+(* inside a shielded call: the segment opens with a library entry and that entry stays open until the
+   segment's last operation (`@altered_default_filters()` around a plain function: LPush, body, LPop) *)
+Fixpoint stays_open (ops : list sop) (d : nat) : bool :=
+  match ops with
+  | [] => false
+  | LPush :: r => stays_open r (S d)
+  | LPop :: r => match d with
+                 | 0 => false
+                 | 1 => match r with [] => true | _ => false end     (* the closing pop is the last operation *)
+                 | S d' => stays_open r d'
+                 end
+  end.
+Definition shielded_seg (seg : list sop) : bool :=
+  match seg with LPush :: r => stays_open r 1 | _ => false end.
+
 (* the entry points of the operations the property lists that are shielded by a decorator on a plain
-   (non-generator) function: their bodies run under `()` whatever the caller has active *)
+   (non-generator) function: their bodies run under the library's own entry `()` whatever the caller
+   has active (top_during_shielded_call in FiltersFacts.v) *)
 Definition shielded (rs : list fsum) : list string :=
-  map f_name (filter (fun r => f_decorated r && negb (f_generator r) && segs_ok (f_segs r)) rs).
+  map f_name (filter (fun r => f_decorated r && negb (f_generator r) && segs_ok (f_segs r)
+                               && forallb shielded_seg (f_segs r)) rs).
 Definition listed_entry_points : list string :=
   [ "NodeBase.serialize"; "TagNode.serialize"; "NodeBase.xpath"; "TagNode.clone"; "_ElementWrappingNode.detach";
     "TagNode.detach"; "TagNode.merge_text_nodes"; "TagNode._reduce_whitespace"; "Document.__serialize" ]%string.
